@@ -253,6 +253,12 @@ def gen(r, tier):
         elif x < 0.82:
             f = r.choice(tree["files"])
             ops.append({"op": "rfetch", "path": f[0].split("/"), "szx": r.randint(0, 6), "wait": r.chance(0.6)})
+            if write and r.chance(0.6):
+                # ... and somebody replaces that very file while the download is under way
+                ops[-1]["wait"] = False
+                if r.chance(0.5):
+                    ops.append({"op": "sleep", "d": r.choice([0.01, 0.02, 0.03, 0.05])})
+                ops.append(req(PUT, f[0].split("/"), payload=[r.randint(100, 999), r.choice([min(f[1], 1024), 1023, 17, 700, 1024])]))
         elif x < 0.85:
             # the same server over CoAP-over-TCP (aiocoap-fileserver listens there too): a peer that announced
             # block-wise transfer and a Max-Message-Size gets BERT blocks (SZX 7: several KiB per message, block
@@ -289,7 +295,10 @@ def gen(r, tier):
                 o["rst_after"] = 0
     net = faults.swarm(r, kinds=("drop", "dup", "delay"))
     net["delay_max"] = min(net.get("delay_max", 0.5), 0.5)
-    return scn(ops, write=write, tree=tree, net=net)
+    out = scn(ops, write=write, tree=tree, net=net)
+    # how long a job handed to a worker thread (loop.run_in_executor) takes to come back, should the server use any
+    out["exec"] = r.choice([0.0005, 0.004, 0.015, 0.03])
+    return out
 
 
 def _all_lists(alphabet, maxlen):
@@ -661,7 +670,11 @@ def execute(sim, scenario):
     fs.ctx_fn = ctx_fn
     fsig = hashlib.blake2b(digest_size=8)
 
+    watchers = []  # called at every file system operation (downloads in progress sample the file they are about)
+
     def on_op(e):
+        for w in watchers:
+            w()
         sim.log("fs", e["op"], e["paths"])
         fsig.update(("%s %d;" % (e["op"], sum(inside(p) for p in e["paths"]))).encode())
 
@@ -669,6 +682,8 @@ def execute(sim, scenario):
         return fs_path.inside(p, ROOT)
 
     fs.on_op = on_op
+    exec_latency = scenario.get("exec", 0.001)
+    loop.executor_latency = lambda: exec_latency
 
     saved = fs_path.install(fs, fsmod)
     refresher = None
@@ -1089,6 +1104,9 @@ def execute(sim, scenario):
                 return None if n is None or n.is_dir else (n.ino, n.mtime_ns, bytes(n.data))
 
             g0 = ground_truth()
+            versions = [g0]
+            watch = lambda: versions.append(ground_truth())  # noqa: E731
+            watchers.append(watch)
             msg = Message(code=aiocoap.GET, uri="coap://[%s]/" % common.SERVER_IP)
             msg.opt.uri_path = tuple(path)
             msg.opt.block2 = (0, False, szx)
@@ -1097,10 +1115,20 @@ def execute(sim, scenario):
                 resp = await asyncio.wait_for(r.response, 200)
             except Exception as e:  # network errors under loss: no verdict
                 sim.log("app", "rfetch", type(e).__name__)
+                watchers.remove(watch)
                 return
             sim.log("app", "rfetch", str(resp.code), len(resp.payload))
             sig.update(("r %d %s;" % (szx, resp.code)).encode())
             g1 = ground_truth()
+            versions.append(g1)
+            watchers.remove(watch)
+            if str(resp.code).startswith("2.05") and all(v is not None for v in versions) and g0[:2] != g1[:2]:
+                # the file was replaced while it was being downloaded: a download that succeeds all the same has one of
+                # the contents the file had in the meantime, never a mixture of them
+                sim.probe("file_replaced_during_download")
+                if resp.payload not in [v[2] for v in versions]:
+                    violation("C19/blockwise-fetch-mixes-versions", ident(
+                        i, o, szx=szx, client="aiocoap", got=len(resp.payload), versions=sorted({len(v[2]) for v in versions})))
             if str(resp.code).startswith("2.05") and g0 is not None and g1 is not None and g0[:2] == g1[:2]:
                 content = g0[2]
                 if resp.payload != content:
